@@ -18,6 +18,9 @@ TRUSTED = [
     "translator gen_runner.py: abstract interpretation of combo_runner_core's data flow (which list is run, the "
     "un-shuffle, which list becomes info['settings'], _unflatten pinned to the transcribed text), bridged in "
     "Bridge/BridgeRunner.v; C03_df_rows is proved over the regenerated flow",
+    "translator gen_label.py: statement shape of results_to_df (row steps in order) and results_to_ds (coordinate "
+    "order, dimension order, result/name pairing, attrs copied, constants to coordinates or to the Dataset's own "
+    "attributes); bridged in Bridge/BridgeLabel.v, interpreted by Model/LabelFlow.v (C03_generated_builders)",
     "hand model Model/Label.v of results_to_ds / results_to_df, validated by differential execution",
     "xarray.Dataset construction (np.asarray of the nested tuple, coords, attrs), pandas.DataFrame construction and "
     "multi_concat for functions returning Dataset/DataArray/dict are library behaviour: oracle-tested only",
@@ -395,10 +398,11 @@ def run(tier, seed):
     c = core.Check("C03", tier, seed)
     gen_st = core.regen()
     b = core.build(PROP_FILE)
-    c.cov["translator"] = {k: v for k, v in gen_st.items() if k in ("GenRunner",)}
+    c.cov["translator"] = {k: v for k, v in gen_st.items() if k in ("GenRunner", "GenLabel")}
     c.cov["build"] = {"ok": b["ok"], "failed_file": b["failed_file"], "wall_s": round(b.get("wall_s", 0), 1)}
-    if "GenRunner" in gen_st and not gen_st["GenRunner"]["ok"]:
-        c.obligation_broken("translator GenRunner", gen_st["GenRunner"]["detail"])
+    for u in ("GenRunner", "GenLabel"):
+        if u in gen_st and not gen_st[u]["ok"]:
+            c.obligation_broken(f"translator {u}", gen_st[u]["detail"])
     if not b["ok"]:
         c.obligation_broken(f"Coq build of {b['failed_file']}", b["log_tail"][-1200:])
     n = 300 if tier == "quick" else 2500
